@@ -2,6 +2,7 @@ package props
 
 import (
 	"calcsa/engines/enc"
+	"calcsa/engines/grammar"
 	"calcsa/engines/lexfsm"
 	"calcsa/engines/own"
 	"calcsa/engines/pipeline"
@@ -23,6 +24,8 @@ func init() {
 	engineKinds["pipeline"] = "must-pass-through and provenance rules on the drivers' SSA; node.Loop interpreted abstractly for two reads"
 	RegisterEngine(&Engine{Name: "strw", Run: strw.Run})
 	engineKinds["strw"] = "abstract interpretation of every STRewrite method with opaque children over symbol tables enumerating which scopes define a name"
+	RegisterEngine(&Engine{Name: "grammar", Run: grammar.Run})
+	engineKinds["grammar"] = "the grammar as data: parser definitions interpreted abstractly with combinator constructors as IR builders; nullable/first analysis, precedence table, transformer shapes"
 	RegisterEngine(&Engine{Name: "txn", Run: txn.Run})
 	engineKinds["txn"] = "typestate of Snapshot/Rollback/Commit on every path of every combinator closure against an abstract input; symbolic effect of the TLexer primitives"
 	RegisterEngine(&Engine{Name: "valtab", Run: valtab.Run})
@@ -141,6 +144,41 @@ func init() {
 		Decides:    "for every node type and every combination of scopes defining a name (table depth 0..3): what a read, an assignment, a loop variable and a function literal are rewritten to; that only MOV/INC write variables and locals/globals go to Set/SetGlobal; call/return symmetry and frame detachment of returned functions.",
 		NotDecided: "the run-time consequence for every program (closures escaping through yield, behaviour once the captured-frame aliasing of C03 bites); that the compiler maps Local/Closure/Name to Lcl/Cls/Gbl operands (compiler rules).",
 		Assumptions: []string{"the rewrite of a name depends only on which scopes contain that name and at which index (data independence in the other names)"},
+	})
+	RegisterSpec(&Spec{
+		ID: "C06", Title: "The front end is total: any text is parsed or rejected, in finite time",
+		Rules: []RuleRef{
+			{"lexfsm", "L1", 10, "lexing terminates: at end of input every state emits, advances or fails"},
+			{"lexfsm", "L2", 60, "no lexer state aborts; the aborting end-of-input state is never called"},
+			{"lexfsm", "N2", 5, "every iteration of the lexer loop advances the scan position or ends the loop"},
+			{"lexfsm", "N7", 2, "a character of the text cannot be taken for the end-of-input marker"},
+			{"lexfsm", "N8", 1, "a lexer error is delivered through the token stream so that the parser finds its span"},
+			{"grammar", "G1", 50, "parsing terminates: no left recursion, every repetition consumes a token"},
+			{"grammar", "G2", 4, "every Choose has an alternative that cannot fail (its panic is unreachable)"},
+			{"grammar", "G4", 14, "no transformer arity panic, failed type assertion or literal conversion panic is reachable"},
+			{"grammar", "T2", 20, "every operator the grammar accepts is wrapped as an operator node and has a compiler case"},
+			{"txn", "X7", 1, "parse errors carry unmodified token / lexer spans (inside the input)"},
+			{"pipeline", "P1", 2, "nothing is compiled or run when an error is reported"},
+			{"pipeline", "P5", 1, "rendering the caret line cannot fail: repeat counts are non-negative"},
+		},
+		Technique:  "finite automaton of the lexer; nullable/first analysis and shape evaluation of the grammar IR; provenance of error spans; path conditions of reportError",
+		Decides:    "termination of lexing (progress at end of input, position advances) and of parsing (no left recursion, productive repetitions), absence of every explicit abort in lexer states, combinators (Choose), transformers and literal conversion on the shapes the grammar can produce, provenance of error spans from token/lexer spans, nothing executed after an error, non-negative repeat counts in the caret rendering.",
+		NotDecided: "time and memory bounds beyond termination; slice bounds in reportError for spans that are consistent (0 <= from <= to <= len) are assumed from the span provenance rather than proved.",
+	})
+	RegisterSpec(&Spec{
+		ID: "C07", Title: "Parsing follows the documented grammar: trees round-trip through source text",
+		Rules: []RuleRef{
+			{"grammar", "G3", 7, "five left-associative binary levels with the documented operator sets, prefix operators over index over atom; the transformers fold to the left"},
+			{"grammar", "G5", 19, "every grammar definition equals the documented grammar (statement and block layout, line breaks, array literals, parentheses add no node)"},
+			{"grammar", "G4", 14, "each transformer builds exactly one node of the documented kind from what its rule parses"},
+			{"grammar", "T2", 20, "every documented operator is lexable, wrapped and compiled"},
+			{"grammar", "T3", 30, "every literal the grammar expects is a single token of the lexer"},
+			{"lexfsm", "L4", 40, "blanks and comments between tokens change no token (layout insensitivity on the lexer side)"},
+			{"lexfsm", "L3", 200, "token structure: longest operator run, one EOL per line break, comments dropped"},
+		},
+		Technique:  "the grammar extracted as data by abstract interpretation of package parser, compared with the documented grammar and operator table; transformers evaluated on the shapes their rules produce",
+		Decides:    "that the grammar the code builds is the documented one: precedence levels and their operator sets, left folding, prefix/index/atom nesting, statement/block/array layout with line breaks, and that parentheses, blanks and comments leave no trace in the tree.",
+		NotDecided: "the round-trip law itself (print then parse is the identity needs a printer and an equality over all trees).",
 	})
 	RegisterSpec(&Spec{
 		ID: "C19", Title: "Runtime error reports point at the real failure",
